@@ -77,11 +77,12 @@ def ExStr (reg : StrRegistry) (ms : List Ty) (es : List Ty) : Prop :=
       ((∃ k, r = [k] ∧ es = [.ser k]) ∨ (r.length ≥ 2 ∧ es = [.str])))
 
 theorem unionOther_spec {cfg : GenCfg} {e : EqEnv} {ms other : List Ty}
-    (hno : ∀ m ∈ ms, m.isOpt = false) (h : unionOther cfg e ms = .ok other) :
+    (hno : ∀ m ∈ ms, m.isOpt = false) (hnu : ∀ m ∈ ms, m.isUnion = false)
+    (h : unionOther cfg e ms = .ok other) :
     ∃ eo es, other = baseOther cfg.reg ms ++ eo ++ exList cfg.lit ms ++ exDict cfg.lit ms ++ es ∧
       ExObj cfg e ms eo ∧ ExStr cfg.reg ms es := by
   unfold unionOther at h
-  rw [splitMembers_spec cfg.reg ms hno] at h
+  rw [splitMembers_spec cfg.reg ms hno hnu] at h
   dsimp only at h
   rw [Except.bind_ok_iff] at h
   obtain ⟨other1, h1, h⟩ := h
@@ -544,8 +545,8 @@ theorem other_rel {cfg : GenCfg} {e : EqEnv} {ms₁ ms₂ o₁ o₂ : List Ty}
     (h₁ : unionOther cfg e ms₁ = .ok o₁) (h₂ : unionOther cfg e ms₂ = .ok o₂) : OtherRel cfg.lit o₁ o₂ := by
   have m₁ := memOK_of_raw r₁
   have m₂ := memOK_of_raw r₂
-  obtain ⟨eo₁, es₁, rfl, xo₁, xs₁⟩ := unionOther_spec m₁.noopt h₁
-  obtain ⟨eo₂, es₂, rfl, xo₂, xs₂⟩ := unionOther_spec m₂.noopt h₂
+  obtain ⟨eo₁, es₁, rfl, xo₁, xs₁⟩ := unionOther_spec m₁.noopt m₁.flat h₁
+  obtain ⟨eo₂, es₂, rfl, xo₂, xs₂⟩ := unionOther_spec m₂.noopt m₂.flat h₂
   obtain ⟨hb, u₁, u₂⟩ := base_rel (reg := cfg.reg) m₁ m₂ hs
   refine ⟨(((hb.append (obj_rel m₁ m₂ hs xo₁ xo₂)).append (list_rel m₁ m₂ hs)).append
     (dict_rel m₁ m₂ hs)).append (str_rel m₁ hs xs₁ xs₂), ?_, ?_⟩
